@@ -173,6 +173,17 @@ def source_of(ctx, el):
     return 'inherited-or-meta'
 
 
+def selector_for(rng):
+    """(selector text, predicate on the element language) for a range item: one range, a list of ranges (one :lang()
+    with several arguments: any), or {'chain': [list, list, ...]} (several :lang() on one compound: all of them)."""
+    if isinstance(rng, dict):
+        groups = rng['chain']
+        text = ''.join(':lang(' + ', '.join(S.cssstring(v) for v in g) + ')' for g in groups)
+        return text, lambda language: all(L.lang_matches(g, language) for g in groups)
+    vals = rng if isinstance(rng, list) else [rng]
+    return ':lang(' + ', '.join(S.cssstring(v) for v in vals) + ')', lambda language: L.lang_matches(vals, language)
+
+
 def evaluate_doc(case):
     doc = trees.materialise(case['tree'])
     ctx = R.Ctx(doc.target)
@@ -181,9 +192,8 @@ def evaluate_doc(case):
     kinds = set()
     n = 0
     for rng in case['ranges']:
-        vals = rng if isinstance(rng, list) else [rng]
-        text = ':lang(' + ', '.join(S.cssstring(v) for v in vals) + ')'
-        exp = [e for e in els if L.lang_matches(vals, L.element_language(ctx, e))]
+        text, pred = selector_for(rng)
+        exp = [e for e in els if pred(L.element_language(ctx, e))]
         try:
             got = sv.select(text, doc.target)
         except Exception as e:  # noqa: BLE001
@@ -207,11 +217,10 @@ def evaluate_doc(case):
 def evaluate_pair(case):
     soup, els, nol = build_tag_doc(case['tags'])
     rng = case['range']
-    vals = rng if isinstance(rng, list) else [rng]
-    text = ':lang(' + ', '.join(S.cssstring(v) for v in vals) + ')'
+    text, pred = selector_for(rng)
     got = {id(x) for x in sv.select(text, soup)}
     for e, t in zip(els, case['tags']):
-        exp = L.lang_matches(vals, t)
+        exp = pred(t)
         if (id(e) in got) != exp:
             return [('filter-accepts' if id(e) in got else 'filter-rejects',
                      f'range {rng!r} vs language {t!r}: soupsieve {id(e) in got}, RFC 4647 {exp}')]
@@ -261,6 +270,10 @@ def shard(ctx):
                 tags.append('')
             if ch.p(0.1):
                 ranges.append('')
+            if len(ranges) > 1 and ch.p(0.35):
+                # the same ranges as separate :lang() pseudo-classes on one compound: every one of them must hold
+                cut = ch.i(1, len(ranges) - 1)
+                ranges = {'chain': [ranges[:cut], ranges[cut:]]}
             case = {'range': ranges, 'tags': tags}
             fails = evaluate_pair(case)
             col.count(len(tags))
@@ -271,6 +284,7 @@ def shard(ctx):
             return
         recipe, flavour = gen_doc(ch)
         ranges = [ch.pick(RANGE_PROBES) for _ in range(3)] + [[ch.pick(RANGE_PROBES), ch.pick(RANGE_PROBES)]]
+        ranges.append({'chain': [[ch.pick(RANGE_PROBES)] for _ in range(ch.i(2, 3))]})
         case = {'tree': recipe, 'flavour': flavour, 'ranges': ranges}
         fails, kinds, n = evaluate_doc(case)
         col.count(n)
